@@ -678,4 +678,29 @@ example : ∃ e m, (check [120, 120, 65, 66, 120, 120, 120] { deaths := [toDeath
 /-- a regex death string `A[Bx]` is admissible -/
 example : patOkB (.re (.seq (Re.lit1 65) (.cls false [(66, 66), (120, 120)]))) = true := by decide
 
+/-! ### the side conditions are necessary (`Spec.C05` is false on the model otherwise) -/
+
+/-- an end-anchored regex `A\Z` matches in a ring that is the history up to a scan window, but
+    not in the data of the whole delivery: the model raises, the monitor finds no occurrence -/
+def eosCase : Case :=
+  { chunk := 8, slice := 64, script := [⟨0, [120, 65, 66]⟩], accept := [],
+    ops := [.deathEnter (.re (.seq (Re.lit1 65) .eos)) 7, .read none (some 1)] }
+
+example : Spec.C05 eosCase (Chan.run eosCase) = false := by decide
+
+/-- a regex that matches the empty word (`A?`) "occurs" in an empty delivery (`read(0)`), but
+    `_check` scans no window of an empty delivery -/
+def nullCase : Case :=
+  { chunk := 8, slice := 64, script := [⟨0, [120, 65, 66]⟩], accept := [],
+    ops := [.deathEnter (.re (.rep (Re.lit1 65) 0 1)) 7, .read (some 0) (some 1)] }
+
+example : Spec.C05 nullCase (Chan.run nullCase) = false := by decide
+
+/-- the same for the empty literal -/
+def emptyLitCase : Case :=
+  { chunk := 8, slice := 64, script := [⟨0, [120, 65, 66]⟩], accept := [],
+    ops := [.deathEnter (.lit []) 7, .read (some 0) (some 1)] }
+
+example : Spec.C05 emptyLitCase (Chan.run emptyLitCase) = false := by decide
+
 end C05
